@@ -25,6 +25,9 @@ type Scenario struct {
 	Ctx      *CtxSpec          `json:"ctx,omitempty"`
 	Bytes    *BytesSpec        `json:"bytes,omitempty"`
 	Start    int               `json:"start,omitempty"`
+	// Far: the scenario is about sums of operands that lie far apart; the cost
+	// guard lets exponent gaps up to 150000 digits through for it.
+	Far bool `json:"far,omitempty"`
 	// Expect is filled in when a violation was found (for replay comparison).
 	Expect *ViolationRec `json:"expect,omitempty"`
 	Note   string        `json:"note,omitempty"`
